@@ -400,6 +400,7 @@ where
     }
     hints.push(check(&it, &mut flags));
     let mut cl = it.clone();
+    let base = it.clone();
     let folded = it.fold(Vec::new(), |mut acc, x| {
         acc.push(idx(&x));
         acc
@@ -410,6 +411,65 @@ where
     }
     if cl.next().is_some() || cl.next().is_some() {
         flags.push_str(" NOT-FUSED");
+    }
+    // direct oracle (C09): the provided `Iterator` methods a type may override (`nth`, `count`, `last`, `skip`,
+    // `step_by`, `find`, `position`, `any`, `all`, `max_by_key`, `min_by_key`) agree with repeated `next`, and
+    // leave the iterator at the position the contract says, with an exact length
+    {
+        let n = rest.len();
+        let mut bad: Option<&'static str> = None;
+        for k in [0usize, 1, n / 2, n.saturating_sub(1), n, n + 3] {
+            let mut d = base.clone();
+            let x = d.nth(k).map(|x| idx(&x));
+            let left = n.saturating_sub(k + 1);
+            if x != rest.get(k).copied() || d.len() != left || d.size_hint() != (left, Some(left)) {
+                bad = Some("nth");
+            }
+            let tail: Vec<usize> = d.map(|x| idx(&x)).collect();
+            if tail[..] != rest[std::cmp::min(k + 1, n)..] {
+                bad = Some("nth-tail");
+            }
+        }
+        if base.clone().count() != n {
+            bad = Some("count");
+        }
+        if base.clone().last().map(|x| idx(&x)) != rest.last().copied() {
+            bad = Some("last");
+        }
+        for k in [1usize, n / 2 + 1] {
+            let v: Vec<usize> = base.clone().skip(k).map(|x| idx(&x)).collect();
+            if v[..] != rest[std::cmp::min(k, n)..] {
+                bad = Some("skip");
+            }
+            let v: Vec<usize> = base.clone().step_by(k + 1).map(|x| idx(&x)).collect();
+            let w: Vec<usize> = rest.iter().copied().step_by(k + 1).collect();
+            if v != w {
+                bad = Some("step_by");
+            }
+        }
+        // (bucket indices of zero-sized elements all print as 0: the position-dependent checks need distinct ones)
+        let distinct = rest.iter().collect::<std::collections::BTreeSet<_>>().len() == n;
+        if n > 0 && distinct {
+            let target = rest[n / 2];
+            let mut d = base.clone();
+            if d.find(|x| idx(x) == target).map(|x| idx(&x)) != Some(target) || d.len() != n - n / 2 - 1 {
+                bad = Some("find");
+            }
+            if base.clone().position(|x| idx(&x) == target) != rest.iter().position(|&b| b == target) {
+                bad = Some("position");
+            }
+            if !base.clone().any(|x| idx(&x) == target) || base.clone().all(|x| idx(&x) != target) {
+                bad = Some("any/all");
+            }
+            let mx = base.clone().max_by_key(|x| idx(x)).map(|x| idx(&x));
+            let mn = base.clone().min_by_key(|x| idx(x)).map(|x| idx(&x));
+            if mx != rest.iter().copied().max() || mn != rest.iter().copied().min() {
+                bad = Some("max/min");
+            }
+        }
+        if let Some(m) = bad {
+            flags.push_str(&format!(" ORACLE-ITER({}_disagrees_with_repeated_next)", m));
+        }
     }
     // direct oracle (C09): fold = repeated next from the same point; next-prefix + fold visits exactly
     // as many elements as the iterator announced at the start
@@ -425,6 +485,45 @@ where
         nats(&hints),
         flags
     )
+}
+
+/// `next` x p, then `nth` far past the end: it must return `None` AND leave the iterator exhausted (length 0,
+/// nothing left for `fold`) — for every iterator kind, clonable or not.
+pub fn observe_iter_nth<I, T>(it: I, p: usize, idx: impl Fn(&T) -> usize) -> String
+where
+    I: Iterator<Item = T> + ExactSizeIterator,
+{
+    let mut it = it;
+    let mut pre = Vec::new();
+    let mut hints = Vec::new();
+    let mut flags = String::new();
+    let check = |it: &I, flags: &mut String| {
+        let (lo, hi) = it.size_hint();
+        if hi != Some(lo) || it.len() != lo {
+            flags.push_str(" SIZE-HINT-INEXACT");
+        }
+        lo
+    };
+    for _ in 0..p {
+        hints.push(check(&it, &mut flags));
+        match it.next() {
+            None => break,
+            Some(x) => pre.push(idx(&x)),
+        }
+    }
+    hints.push(check(&it, &mut flags));
+    if it.nth(usize::MAX / 2).is_some() {
+        flags.push_str(" ORACLE-ITER(nth_past_the_end_returned_an_element)");
+    }
+    hints.push(check(&it, &mut flags));
+    let folded = it.fold(Vec::new(), |mut acc, x| {
+        acc.push(idx(&x));
+        acc
+    });
+    if !folded.is_empty() || *hints.last().unwrap() != 0 {
+        flags.push_str(" ORACLE-ITER(nth_past_the_end_did_not_exhaust_the_iterator)");
+    }
+    format!("pre={} fold={} rest={} sh={}{}", nats(&pre), nats(&folded), nats(&folded), nats(&hints), flags)
 }
 
 /// Same for iterators that cannot be cloned (`iter_mut`, `values_mut`): the "clone" column
@@ -1010,6 +1109,18 @@ impl<K: KeyT, V: ValT> MapRunner<K, V> {
                 }
                 quiet();
                 out.iter().map(|(k, v)| fmt_kv(k, v)).collect::<Vec<_>>().join(",")
+            }
+            ("iter", 3) => {
+                let (ka, va) = addr_index(m);
+                let p = n(0) as usize;
+                let bad = usize::MAX;
+                match a[1] {
+                    "keys" => observe_iter_nth(m.keys(), p, |k| *ka.get(&(*k as *const K as usize)).unwrap_or(&bad)),
+                    "values" => observe_iter_nth(m.values(), p, |v| *va.get(&(*v as *const V as usize)).unwrap_or(&bad)),
+                    "values_mut" => observe_iter_nth(m.values_mut(), p, |v| *va.get(&(&**v as *const V as usize)).unwrap_or(&bad)),
+                    "iter_mut" => observe_iter_nth(m.iter_mut(), p, |(k, _)| *ka.get(&(*k as *const K as usize)).unwrap_or(&bad)),
+                    _ => observe_iter_nth(m.iter(), p, |(k, _)| *ka.get(&(*k as *const K as usize)).unwrap_or(&bad)),
+                }
             }
             ("iter", 1) | ("iter", 2) => {
                 let (ka, va) = addr_index(m);
